@@ -616,6 +616,13 @@ class C19(Property):
         return Case(line, {"op": "fentry", "style": style, "spec": s, "cols": cols, "lines": lines,
                            "size_kind": size_kind, "glue": glue, "depth": depth}, kind, nontrivial=True)
 
+    def citer_case(self, style, depth, s, changed, cols=80, lines=30, kind="citer"):
+        """a caching iterator over the 3-frame image through 1 + len(changed) loops, size changed where flagged"""
+        bits = " ".join([str(len(changed))] + [str(int(c)) for c in changed])
+        return Case(f"citer {style} {depth} {cols} {lines} 3 {bits} {hx(s)}",
+                    {"op": "citer", "style": style, "depth": depth, "spec": s, "cols": cols, "lines": lines,
+                     "changed": [bool(c) for c in changed]}, kind, nontrivial=True)
+
     def centry_case(self, entry, style, depth, s, cols=80, lines=30, kind="centry"):
         """one specifier through one entry point on (an instance of) the style class or a subclass of it"""
         return Case(f"centry {entry} {style} {depth} {cols} {lines} {hx(s)}",
@@ -663,6 +670,13 @@ class C19(Property):
                 for entry in ("check", "format", "iter", "urwid"):
                     for s in especs[style]:
                         yield self.centry_case(entry, style, depth, s, kind="centry-fixed")
+        ispecs = {"block": ["", "<5.^2#", ".", "+L"],
+                  "kitty": ["+Wz5m1c9", "+L", "<10.^4#+Wz-1m1c9", "5.5+c9", "+m1", "", "+x", "+z2147483648"],
+                  "iterm2": ["+Wm1c9", "+A", ">10.^4##+Lm1c0", "5.5+c9", "+m1", "", "+x", "1."]}
+        for style in CLASSES:
+            for j, s in enumerate(ispecs[style]):
+                for changed in ([True], [False], [True, True], [False, True]):
+                    yield self.citer_case(style, j % 3 if changed == [True] else 0, s, changed, kind="citer-fixed")
         for style in CLASSES:
             for i, s in enumerate(fspecs[style]):
                 for depth in (1, 2):
@@ -676,8 +690,12 @@ class C19(Property):
                     s = self.mutate(rng, s)
                 big = any(m.end() - m.start() >= 3 and not (s[:m.start()].endswith("#") or s[:m.start()].endswith("#."))
                           for m in re.finditer(r"[0-9]+", s))
-                entry = rng.choice(["check", "format", "iter", "urwid"])
-                yield self.centry_case("check" if big else entry, style, rng.choice([0, 1, 1, 2]), s,
+                entry = rng.choice(["check", "format", "iter", "urwid", "citer"])
+                if entry == "citer" and not big:
+                    yield self.citer_case(style, rng.choice([0, 0, 1, 2]), s, [rng.random() < 0.6 for _ in range(rng.choice([1, 2]))],
+                                          *rng.choice([(80, 30), (40, 20)]))
+                    continue
+                yield self.centry_case("check" if big or entry == "citer" else entry, style, rng.choice([0, 1, 1, 2]), s,
                                        *rng.choice([(80, 30), (40, 20), (24, 12)]))
                 continue
             if rng.random() < 0.04:
@@ -872,6 +890,8 @@ class C19(Property):
             return self.run_fentry(img, d["glue"], s)[0]
         if op == "centry":
             return self.run_centry(d)[0]
+        if op == "citer":
+            return self.run_citer(d)[0]
         if op == "draw":
             img = image_of(d["style"])
             evs, res, _ = self.run_draw(img, d["p"])
@@ -925,6 +945,9 @@ class C19(Property):
         cls = klass(style, depth)
         if entry == "check":
             return self.check_one(cls, s), None
+        if entry == "urwid":
+            r = self.run_urwid(d)
+            return r[0], r
         REC.clear()
         out = None
         try:
@@ -936,12 +959,6 @@ class C19(Property):
                     out = next(it)
                 finally:
                     it.close()
-            elif entry == "urwid":
-                from term_image.widget import UrwidImage
-                w = UrwidImage(make_image(style, "fixedw", depth), s)
-                args = {k: v for k, v in w._ti_style_args.items() if k in ("method", "mix", "compress")}  # the widget sets z_index, blend, split_cells itself
-                REC.clear()
-                return f"ok {fmt_optc(w._ti_h_align)} * {fmt_optc(w._ti_v_align)} * {fmt_alpha(w._ti_alpha)} {fmt_args(args)}", None
             res = None
         except (ValueError, StyleError, RecursionError, TypeError, AttributeError, KeyError) as e:
             res = err(e)
@@ -956,6 +973,100 @@ class C19(Property):
                 res = "ok " + fmt_result((*fr[0][1:], ri[0][1], ri[0][2]))
         return res, out
 
+    def run_urwid(self, d):
+        """UrwidImage(image, spec) -> (canonical result incl. whether the shared z-index pool changed,
+        pool before, pool after construction, image snapshot before, after)"""
+        import gc
+        from term_image.widget import UrwidImage
+
+        def pool():
+            return (UrwidImage._ti_next_z_index, tuple(sorted(UrwidImage._ti_free_z_indexes)))
+
+        img = make_image(d["style"], "fixedw", d["depth"])
+        gc.collect()
+        p0, s0 = pool(), full_snapshot(img)
+        w = None
+        try:
+            w = UrwidImage(img, d["spec"])
+            # the widget sets z_index, blend, split_cells itself; sizes are not used
+            args = {k: v for k, v in w._ti_style_args.items() if k in ("method", "mix", "compress")}
+            res = f"ok {fmt_optc(w._ti_h_align)} * {fmt_optc(w._ti_v_align)} * {fmt_alpha(w._ti_alpha)} {fmt_args(args)}"
+        except (ValueError, StyleError, RecursionError, TypeError, AttributeError, KeyError) as e:
+            res = err(e)
+        gc.collect()
+        p1, s1 = pool(), full_snapshot(img)
+        del w
+        gc.collect()
+        REC.clear()
+        return res + f" pool {int(p1 != p0)}", p0, p1, s0, s1
+
+    def run_citer(self, d):
+        """a caching ImageIterator through 1 + len(changed) loops; the image size is changed before a later loop
+        where `changed` says so. -> (canonical: the parameters of every render call made, frames, per-frame format())"""
+        style, depth, s, changed = d["style"], d["depth"], d["spec"], d["changed"]
+        img = make_image(style, "animfixed", depth, seek=0)
+        nf = img.n_frames
+        REC.clear()
+        frames, refs = [], []
+        try:
+            it = C.ImageIterator(img, 1 + len(changed), s, True)
+        except (ValueError, StyleError, RecursionError, TypeError, AttributeError, KeyError) as e:
+            REC.clear()
+            return err(e), frames, refs
+        rec = []
+        try:
+            width = 3
+            for loop in range(1 + len(changed)):
+                if loop and changed[loop - 1]:
+                    width += 1
+                    _orig_set_size(img, width=width)
+                for _ in range(nf):
+                    frames.append(next(it))
+                    rec += list(REC)
+                    REC.clear()
+                    if style == "block":  # deterministic text: the frame must be what format() gives right now
+                        refs.append(format(img, s))
+                        REC.clear()
+        finally:
+            it.close()
+            REC.clear()
+        # a completed render = a `_render_image` call followed by its `_format_render`; the probe past the last
+        # frame of the first loop (EOFError inside `_render_image`) completes nothing
+        seq = [r for r in rec if r[0] in ("render_image", "format_render")]
+        ri = [a for a, b in zip(seq, seq[1:]) if a[0] == "render_image" and b[0] == "format_render"]
+        fr = [b for a, b in zip(seq, seq[1:]) if a[0] == "render_image" and b[0] == "format_render"]
+        rs = ["[" + fmt_result((*f[1:], r[1], r[2])) + "]" for r, f in zip(ri, fr)]
+        return "ok " + " ".join([str(len(rs))] + rs), frames, refs
+
+    def oracle_citer(self, d):
+        style, depth, s, cols, lines, changed = d["style"], d["depth"], d["spec"], d["cols"], d["lines"], d["changed"]
+        env.set_env(term_size=(cols, lines))
+        res, frames, refs = self.run_citer(d)
+        key = f"itercached/sub{depth}/{style}/{s!r}/{''.join(str(int(c)) for c in changed)}"
+        pr = doc_parse(style, s)
+        if pr[0] == "err":
+            if res.startswith("ok"):
+                return Failure(f"accepts-nonsentence/{key}", f"ImageIterator on {klass(style, depth).__name__} accepts the non-sentence {s!r}")
+            if res.split(" ")[1] not in pr[1]:
+                return Failure(f"error-kind/{key}", f"ImageIterator: rejecting {s!r} raised {res}, documented: {sorted(pr[1])}")
+            return None
+        if not res.startswith("ok"):
+            return Failure(f"rejects-sentence/{key}", f"ImageIterator on {klass(style, depth).__name__}: the sentence {s!r} raised {res}")
+        want = "[" + fmt_result(doc_denote(pr[1], cols, lines, 40 / 255)) + "]"
+        got = re.findall(r"\[[^\]]*\]", res)
+        n_want = 3 * (1 + sum(map(bool, changed)))
+        for i, g in enumerate(got):
+            if g != want:
+                return Failure(f"iter-denotation/{key}", f"render #{i} of a caching ImageIterator(image, {1 + len(changed)}, {s!r}) "
+                               f"(3 frames; size changed before loops {[j + 2 for j, c in enumerate(changed) if c]}) used {g}, "
+                               f"the specifier denotes {want}")
+        if len(got) != n_want:
+            return Failure(f"iter-renders/{key}", f"{len(got)} renders, expected {n_want}")
+        for i, (a, b) in enumerate(zip(frames, refs)):
+            if a != b:
+                return Failure(f"iter-output/{key}", f"frame #{i} of the iterator differs from format(image, {s!r}) at that frame and size")
+        return None
+
     def oracle_centry(self, d):
         """every entry point, on the style class and on application subclasses, accepts exactly the documented
         sentences of the style, with the documented denotation, and rejects with the documented error"""
@@ -963,6 +1074,14 @@ class C19(Property):
         env.set_env(term_size=(cols, lines))
         res, out = self.run_centry(d)
         key = f"{entry}/sub{depth}/{style}/{s!r}"
+        if entry == "urwid":
+            res, p0, p1, s0, s1 = out
+            if s0 != s1:
+                return Failure(f"side-effect/{key}", f"UrwidImage(image, {s!r}) changed the image instance")
+            if res.startswith("err") and p0 != p1:
+                return Failure(f"side-effect/{key}", f"UrwidImage({klass(style, depth).__name__} instance, {s!r}) raised {res.split(' pool')[0]} "
+                               f"but changed the z-index pool shared by all widgets: (next, free) {p0} -> {p1}")
+            res = res.rsplit(" pool ", 1)[0]
         where = f"{entry} on {klass(style, depth).__name__}"
         if entry != "urwid":
             f = self.oracle_spec(style, s, cols, lines, res, where)
@@ -1065,6 +1184,8 @@ class C19(Property):
             return self.oracle_fentry(d)
         if op == "centry":
             return self.oracle_centry(d)
+        if op == "citer":
+            return self.oracle_citer(d)
         return None
 
     def oracle_fentry(self, d):
